@@ -204,10 +204,21 @@ def _eval_repr(L, text):
     """read a printed repr back (only used when the text differs from the expected repr)"""
     ns = {k: getattr(L, k) for k in ("CodeData", "Instruction", "Jump", "Name", "Varname", "Constant", "Freevar", "Cellvar",
                                      "NoArg", "Args", "Function", "AdditionalLine")}
-    ns.update({"nan": float("nan"), "inf": float("inf"), "Ellipsis": Ellipsis})
+    ns.update({"inf": float("inf"), "Ellipsis": Ellipsis})
     text = re.sub(r"\binfj\b", "complex(0, inf)", text)
     text = re.sub(r"\bnanj\b", "complex(0, nan)", text)
-    return eval(text, ns)
+    # every printed `nan` is its own object, as in the value that was printed: one shared NaN object would
+    # collapse `frozenset({nan, nan, 1.5})` to two members when read back
+    return eval(text, ns, _FreshNan())
+
+
+class _FreshNan(object):
+    """locals mapping for _eval_repr: the name `nan` yields a new NaN object at every lookup"""
+
+    def __getitem__(self, key):
+        if key == "nan":
+            return float("nan")
+        raise KeyError(key)
 
 
 @op("c16")
